@@ -148,12 +148,216 @@ fn probe_chars(pool: &[(Vec<ModeSpec>, String)]) -> Vec<char> {
     v
 }
 
+/// Sequences of `add_patterns(..).build()` (the simple builder path): lists that are prefixes and
+/// extensions of each other, one pattern changed, two swapped, a failing list.
+fn gen_simple_case(d: &mut Dec, p: &GenParams) -> Case {
+    let q = GenParams {
+        lookahead_per_256: 0,
+        big_token_types: false,
+        ..p.clone()
+    };
+    let n = 2 + d.below(3);
+    let base: Vec<String> = (0..n).map(|_| rx::print(&gen::gen_pattern_rx(d, &q))).collect();
+    let mut lists: Vec<(Vec<String>, &'static str)> = vec![(base.clone(), "base")];
+    for _ in 0..2 + d.below(3) {
+        let mut v = base.clone();
+        let kind = match d.below(6) {
+            0 => {
+                v.truncate(1 + d.below(n - 1));
+                "prefix"
+            }
+            1 => {
+                v.push(rx::print(&gen::gen_pattern_rx(d, &q)));
+                "extension"
+            }
+            2 => {
+                let i = d.below(n);
+                v[i] = rx::print(&gen::gen_pattern_rx(d, &q));
+                "one_changed"
+            }
+            3 => {
+                let i = d.below(n);
+                let j = (i + 1 + d.below(n - 1)) % n;
+                v.swap(i, j);
+                "swapped"
+            }
+            4 => {
+                v.clear();
+                "empty"
+            }
+            _ => {
+                let bad = *d.pick(&["a(", "[a", "\\b", "a*?"]);
+                if d.bool() {
+                    v.push(bad.to_string());
+                } else {
+                    v.insert(0, bad.to_string());
+                }
+                "failing"
+            }
+        };
+        lists.push((v, kind));
+    }
+    let nseq = 3 + d.below(8);
+    let seq: Vec<usize> = (0..nseq).map(|_| d.below(lists.len())).collect();
+    // probe inputs from the languages of all lists
+    let mut inputs = Vec::new();
+    for (l, kind) in &lists {
+        if *kind == "failing" || l.is_empty() {
+            continue;
+        }
+        let c = Case {
+            modes: vec![ModeSpec {
+                name: "INITIAL".into(),
+                pats: l
+                    .iter()
+                    .enumerate()
+                    .map(|(i, s)| PatSpec {
+                        rx: rx::parse_supported(s),
+                        tt: i,
+                        la: None,
+                    })
+                    .collect(),
+                transitions: vec![],
+            }],
+            ..Case::default()
+        };
+        inputs.push(gen::gen_input(d, &c.model(), 16));
+    }
+    Case {
+        inputs,
+        extra: json!({
+            "kind": "simple",
+            "lists": lists.iter().map(|(l, k)| json!({"kind": k, "patterns": l})).collect::<Vec<_>>(),
+            "seq": seq,
+        }),
+        ..Case::default()
+    }
+}
+
+fn check_simple(case: &Case) -> CheckResult {
+    let Some(ls) = case.extra["lists"].as_array() else {
+        return Ok(discard("discard_shape"));
+    };
+    let mut lists: Vec<(Vec<String>, String)> = Vec::new();
+    for l in ls {
+        let pats: Vec<String> = match l["patterns"].as_array() {
+            Some(a) => a.iter().filter_map(|x| x.as_str().map(|s| s.to_string())).collect(),
+            None => return Ok(discard("discard_shape")),
+        };
+        lists.push((pats, l["kind"].as_str().unwrap_or("").to_string()));
+    }
+    let seq: Vec<usize> = case.extra["seq"]
+        .as_array()
+        .map(|a| a.iter().filter_map(|x| x.as_u64()).map(|x| x as usize).collect())
+        .unwrap_or_default();
+    if seq.iter().any(|i| *i >= lists.len()) || lists.is_empty() {
+        return Ok(discard("discard_shape"));
+    }
+    let nonce = NONCE.fetch_add(1, Ordering::Relaxed);
+    // the nonce pattern stands first so that prefix relations between the lists survive
+    let nonce_pat = format!("\\u{{E000}}N{}N", nonce);
+    let mut st = CaseStats::default();
+    st.count("simple_builder_cases");
+    let mut built: Vec<usize> = Vec::new();
+    let mut failed_before = false;
+    for (step, &i) in seq.iter().enumerate() {
+        let (l, kind) = &lists[i];
+        let mut pats = vec![nonce_pat.clone()];
+        pats.extend(l.iter().cloned());
+        let reference_mode = scnr::ScannerMode::new(
+            "INITIAL",
+            pats.iter()
+                .enumerate()
+                .map(|(k, s)| scnr::Pattern::new(s.clone(), k))
+                .collect::<Vec<_>>(),
+            vec![],
+        );
+        let r = guard(|| {
+            (
+                scnr::ScannerBuilder::new().add_patterns(&pats).build(),
+                scnr::ScannerBuilder::new()
+                    .add_scanner_mode(reference_mode.clone())
+                    .build_uncached(),
+            )
+        });
+        let (a, b) = match r {
+            Err(p) => return Err(Failure::panic("c13.panic", format!("simple build {} panicked", step), p)),
+            Ok(x) => x,
+        };
+        if !built.is_empty() && !built.contains(&i) {
+            st.count("variant_after_cached_sibling");
+            st.nontrivial = true;
+        }
+        if failed_before && kind != "failing" {
+            st.count("valid_after_failing");
+            st.nontrivial = true;
+        }
+        st.count("builds");
+        match (a, b) {
+            (Err(_), Err(_)) => {
+                st.count("failing_builds");
+                failed_before = true;
+            }
+            (Ok(_), Err(e)) => {
+                return Err(Failure::new(
+                    "c13.outcome",
+                    format!("simple build {} ({}): add_patterns(..).build() succeeds but the same patterns do not build without the cache ({})", step, kind, e),
+                ))
+            }
+            (Err(e), Ok(_)) => {
+                return Err(Failure::new(
+                    "c13.outcome",
+                    format!("simple build {} ({}): add_patterns(..).build() fails ({}) but the same patterns build without the cache", step, kind, e),
+                ))
+            }
+            (Ok(a), Ok(b)) => {
+                built.push(i);
+                let r = guard(|| -> Result<(), String> {
+                    if a.verif_dump() == b.verif_dump() {
+                        Ok(())
+                    } else {
+                        scanners_equivalent(&a, &b).map(|_| ())
+                    }
+                });
+                match r {
+                    Err(p) => return Err(Failure::panic("c13.panic", "dumping panicked", p)),
+                    Ok(Err(e)) => {
+                        return Err(Failure::new(
+                            "c13.automata",
+                            format!("simple build {} ({}): the scanner from add_patterns(..).build() is not equivalent to the uncached one: {}", step, kind, e),
+                        ))
+                    }
+                    Ok(Ok(())) => {}
+                }
+                for input in &case.inputs {
+                    let r = guard(|| {
+                        let ta: Vec<Tok> = a.find_iter(input).map(|m| Tok::of(&m)).collect();
+                        let tb: Vec<Tok> = b.find_iter(input).map(|m| Tok::of(&m)).collect();
+                        (ta, tb)
+                    });
+                    if let Ok((ta, tb)) = r {
+                        if ta != tb {
+                            return Err(Failure::new(
+                                "c13.stream",
+                                format!("simple build {} ({}): token stream on {:?} differs between add_patterns(..).build() and the uncached build", step, kind, input),
+                            )
+                            .exp_obs(tb, ta));
+                        }
+                        st.count("streams_compared");
+                    }
+                }
+            }
+        }
+    }
+    Ok(st)
+}
+
 impl Check for C13 {
     fn id(&self) -> &'static str {
         "C13"
     }
     fn rule(&self) -> &'static str {
-        "case = sequence of 3-10 builds drawn with repetition from a pool made of a base configuration, 2-4 near-identical variants (one token type changed, two patterns swapped, lookahead added / removed / polarity flipped / pattern changed, transition added / retargeted, mode renamed, one pattern changed), an unrelated configuration and failing configurations (syntax error or unsupported construct in first / last pattern or lookahead of any mode); mode names carry a per-execution nonce so that executions never meet each other's cache entries; oracle = every build() versus build_uncached() of the same modes: same Ok/Err, equal mode_name, equal token streams on probe inputs sampled from the languages of ALL pool members, and equivalent automata (identical dumps with class predicates compared on a probe set of ~600 characters, or - when dumps differ, and always for the last build of every fourth case - exact language equivalence per mode and lookahead over the alphabet atoms); non-trivial = a variant is built after its sibling was cached, or a valid build follows a failing one"
+        "case = sequence of 3-10 builds drawn with repetition from a pool made of a base configuration, 2-4 near-identical variants (one token type changed, two patterns swapped, lookahead added / removed / polarity flipped / pattern changed, transition added / retargeted, mode renamed, one pattern changed), an unrelated configuration and failing configurations (syntax error or unsupported construct in first / last pattern or lookahead of any mode); mode names carry a per-execution nonce so that executions never meet each other's cache entries; oracle = every build() versus build_uncached() of the same modes: same Ok/Err, equal mode_name, equal token streams on probe inputs sampled from the languages of ALL pool members, and equivalent automata (identical dumps with class predicates compared on a probe set of ~600 characters, or - when dumps differ, and always for the last build of every fourth case - exact language equivalence per mode and lookahead over the alphabet atoms); a quarter of the cases instead drive the simple builder add_patterns(..).build() with pattern lists that are prefixes / extensions of each other, one pattern changed, two swapped, empty, failing (a nonce pattern stands first), compared with the same patterns built without the cache; non-trivial = a variant is built after its sibling was cached, or a valid build follows a failing one"
     }
     fn cases(&self, thorough: bool) -> usize {
         if thorough {
@@ -170,6 +374,9 @@ impl Check for C13 {
         }
         .with_lookaheads(70)
         .with_modes(2);
+        if d.chance(64) {
+            return gen_simple_case(d, &p);
+        }
         let base = gen::gen_modes(d, &p);
         let mut pool: Vec<(Vec<ModeSpec>, String)> = vec![(base.clone(), "base".into())];
         for _ in 0..2 + d.below(3) {
@@ -222,6 +429,9 @@ impl Check for C13 {
         out
     }
     fn check(&self, case: &Case) -> CheckResult {
+        if case.extra["kind"].as_str() == Some("simple") {
+            return check_simple(case);
+        }
         let pool = match pool_of(case) {
             Ok(p) => p,
             Err(_) => return Ok(discard("discard_shape")),
